@@ -14,7 +14,7 @@ import logging
 
 from common import hx
 
-logging.disable(logging.CRITICAL)
+logging.getLogger().addHandler(logging.NullHandler()); logging.getLogger().setLevel(logging.DEBUG); logging.getLogger("asyncio").setLevel(logging.WARNING)
 ASSUMPTIONS = ["zigpy ControllerApplication / ZigbeePacket / AddrModeAddress by the fields read",
                "ZDO-endpoint packets (endpoint 0) are routed to the ZDO helper and are outside the property"]
 
